@@ -50,6 +50,11 @@ def make_inputs(d, rng):
     for i in range(rng.randint(4, 25)):
         pep = rng.choice(peptides)
         prots_of = list(pmap[pep])
+        if rng.random() < 0.25 and not all(q.startswith("REV__") for q in prots_of):
+            # what a search engine lists for a target peptide that also matches a decoy: methods that take the proteins from the file
+            # must drop the decoy (methods that remap ignore the column)
+            t = rng.choice([q for q in prots_of if not q.startswith("REV__")])
+            prots_of.insert(rng.randint(0, len(prots_of)), "REV__" + rng.choice([t, t + "x"]))
         p = rng.choice([1e-6, 1e-4, 0.003, 0.02, 0.2, 0.7]) * rng.choice([1.0, 0.5, 1.5])
         p = min(p, 0.99)
         psms.append({"peptide": pep, "mod": pep, "proteins": prots_of, "pep": p, "prob": 1.0 - p, "log10pep": math.log10(p),
